@@ -237,11 +237,22 @@ def gen_header(api, tree, lines):
             and hi.right.id == 'msglen' and const_int(hi.left) == b0):
         raise ValueError('body slice shape')
     lines.append('Definition hdr_body_lo : Z := %s.' % api.zlit(b0))
-    lo, hi = slice_of(sd.body[-1] if False else [n for n in ast.walk(sd) if isinstance(n, ast.If) and isinstance(n.test, ast.Compare)
-                                                   and isinstance(n.test.left, ast.Name) and n.test.left.id == 'checksum'][0].test, 'h')
-    if lo is not None:
-        raise ValueError('checksum slice shape (read side)')
-    lines.append('Definition hdr_ck_len_read : Z := %s.' % api.zlit(const_int(hi)))
+    # the checksum comparison `if checksum != h[:N]: raise ...`; its absence is a fact of the source
+    # (translated as None), any other shape fails closed
+    cks = [n for n in ast.walk(sd) if isinstance(n, ast.If) and any(isinstance(x, ast.Name) and x.id == 'checksum' for x in ast.walk(n.test))]
+    if not cks:
+        lines.append('Definition hdr_ck_check : option Z := None.')
+    else:
+        if len(cks) != 1:
+            raise ValueError('several checksum tests')
+        t = cks[0].test
+        if not (isinstance(t, ast.Compare) and isinstance(t.left, ast.Name) and t.left.id == 'checksum' and len(t.ops) == 1
+                and isinstance(t.ops[0], ast.NotEq) and isinstance(cks[0].body[0], ast.Raise)):
+            raise ValueError('checksum test shape')
+        lo, hi = slice_of(t.comparators[0], 'h')
+        if lo is not None:
+            raise ValueError('checksum slice shape (read side)')
+        lines.append('Definition hdr_ck_check : option Z := Some %s.' % api.zlit(const_int(hi)))
 
 
 def gen_version_thresholds(api, tree, lines):
